@@ -394,6 +394,7 @@ func checkC12(c *Check) {
 		c.Ob("R5", "free-port counter and allocation flags are written only by the service loop", run.Pos(), bad == "" && n >= 3, "written from "+bad)
 		c.portTransitions(run)
 		c.inventoryClientRules("R4")
+		c.cancelBeforeDrain("R5", run)
 	}
 }
 
